@@ -278,6 +278,14 @@ def call(f, *a, **k):
                         out.extend(s)
                     out.extend(SymBytes.of(part))
                 return SymBytes(out, mutable=_isinstance(s, _bytearray))
+            if _isinstance(s, _struct.Struct) and any(_symbolic(x) for x in a):
+                if f.__name__ == "pack":
+                    return _m_struct_pack(s.format, *a)
+                if f.__name__ == "unpack":
+                    return _m_struct_unpack(s.format, *a)
+                if f.__name__ == "unpack_from":
+                    off = conc(a[1]) if _len(a) > 1 else conc(k.get("offset", 0))
+                    return _m_struct_unpack(s.format, SymBytes(SymBytes.of(a[0])[off:off + s.size]))
         elif f is _int.from_bytes:
             return _m_from_bytes(*a, **k)
     return f(*a, **k)
